@@ -7,6 +7,7 @@ package main
 import (
 	"errors"
 	"io"
+	"time"
 
 	"github.com/cloudwego/gopkg/bufiox"
 	"github.com/cloudwego/gopkg/protocol/thrift"
@@ -303,112 +304,97 @@ func c02Run(in V) V {
 	}
 
 	// 1. Binary.Skip
-	var oBS VL
-	off := 0
-	for _, v := range vals {
-		buf := data[off:len(data):len(data)]
-		n, err := thrift.Binary.Skip(buf, thrift.TType(v.T))
-		oBS = append(oBS, Ls(I(c02Err(err)), I(n)))
-		if err != nil {
-			break
+	oBS, _ := c02Guard(0, func() (VL, int) {
+		var o VL
+		off := 0
+		for _, v := range vals {
+			buf := data[off:len(data):len(data)]
+			n, err := thrift.Binary.Skip(buf, thrift.TType(v.T))
+			o = append(o, Ls(I(c02Err(err)), I(n)))
+			if err != nil || n < 0 || off+n > len(data) {
+				break
+			}
+			off += n
 		}
-		off += n
-	}
+		return o, 0
+	})
 
 	// 2. BufferReader.Skip over a bufiox reader
-	var oBR VL
-	fBR := 0
-	{
+	oBR, fBR := c02Guard(1, func() (VL, int) {
+		var o VL
 		r := bufiox.NewDefaultReader(newSrc())
 		br := thrift.NewBufferReader(r)
-		ok := true
+		defer func() { br.Recycle(); r.Release(nil) }()
 		for _, v := range vals {
 			err := br.Skip(thrift.TType(v.T))
-			oBR = append(oBR, Ls(I(c02Err(err)), I64(br.Readn())))
+			o = append(o, Ls(I(c02Err(err)), I64(br.Readn())))
 			if err != nil {
-				ok = false
-				break
+				return o, 0
 			}
 			if rel {
 				br.Recycle()
 				br = thrift.NewBufferReader(r)
 			}
 		}
-		if ok {
-			b, err := r.Next(len(follow))
-			if err == nil && string(b) == string(follow) {
-				fBR = 1
-			}
+		b, err := r.Next(len(follow))
+		if err == nil && string(b) == string(follow) {
+			return o, 1
 		}
-		br.Recycle()
-		r.Release(nil)
-	}
+		return o, 0
+	})
 
 	// 3. SkipDecoder over a bufiox reader
-	var oSD VL
-	fSD := 0
-	{
+	oSD, fSD := c02Guard(2, func() (VL, int) {
+		var o VL
 		r := bufiox.NewDefaultReader(newSrc())
 		d := thrift.NewSkipDecoder(r)
-		ok := true
+		defer func() { d.Release(); r.Release(nil) }()
 		for i, v := range vals {
 			b, err := d.Next(thrift.TType(v.T))
 			if err != nil {
-				oSD = append(oSD, Ls(I(1), I(0), I(r.ReadLen())))
-				ok = false
-				break
+				return append(o, Ls(I(1), I(0), I(r.ReadLen()))), 0
 			}
-			oSD = append(oSD, Ls(I(0), c02Ret(b, encs[i]), I(r.ReadLen())))
+			o = append(o, Ls(I(0), c02Ret(b, encs[i]), I(r.ReadLen())))
 			if rel {
 				d.Release()
 				d = thrift.NewSkipDecoder(r)
 			}
 		}
-		if ok {
-			b, err := r.Next(len(follow))
-			if err == nil && string(b) == string(follow) {
-				fSD = 1
-			}
+		b, err := r.Next(len(follow))
+		if err == nil && string(b) == string(follow) {
+			return o, 1
 		}
-		d.Release()
-		r.Release(nil)
-	}
+		return o, 0
+	})
 
 	// 4. BytesSkipDecoder
-	var oBSD VL
-	fBSD := 0
-	{
-		rest := data[:len(data):len(data)]
-		d := thrift.NewBytesSkipDecoder(rest)
-		ok := true
+	oBSD, fBSD := c02Guard(3, func() (VL, int) {
+		var o VL
+		d := thrift.NewBytesSkipDecoder(data[:len(data):len(data)])
+		defer func() { d.Release() }()
 		consumed := 0
 		for i, v := range vals {
 			b, err := d.Next(thrift.TType(v.T))
 			if err != nil {
-				oBSD = append(oBSD, Ls(I(1), I(0)))
-				ok = false
-				break
+				return append(o, Ls(I(1), I(0))), 0
 			}
-			oBSD = append(oBSD, Ls(I(0), c02Ret(b, encs[i])))
+			o = append(o, Ls(I(0), c02Ret(b, encs[i])))
 			consumed += len(b)
 			if rel && consumed <= len(data) {
 				d.Release()
 				d = thrift.NewBytesSkipDecoder(data[consumed:len(data):len(data)])
 			}
 		}
-		if ok {
-			b, err := d.SkipN(len(follow))
-			if err == nil && string(b) == string(follow) {
-				fBSD = 1
-			}
+		b, err := d.SkipN(len(follow))
+		if err == nil && string(b) == string(follow) {
+			return o, 1
 		}
-		d.Release()
-	}
+		return o, 0
+	})
 
 	// 5. ReaderSkipDecoder over the scripted io.Reader itself
-	var oRSD VL
-	fRSD := 0
-	{
+	oRSD, fRSD := c02Guard(4, func() (VL, int) {
+		var o VL
 		src := newSrc()
 		var d *thrift.ReaderSkipDecoder
 		if fresh {
@@ -417,29 +403,62 @@ func c02Run(in V) V {
 		} else {
 			d = thrift.NewReaderSkipDecoder(src)
 		}
-		ok := true
+		defer func() { d.Release() }()
 		for i, v := range vals {
 			b, err := d.Next(thrift.TType(v.T))
 			if err != nil {
-				oRSD = append(oRSD, Ls(I(1), I(0), I(src.pos)))
-				ok = false
-				break
+				return append(o, Ls(I(1), I(0), I(src.pos))), 0
 			}
-			oRSD = append(oRSD, Ls(I(0), c02Ret(b, encs[i]), I(src.pos)))
+			o = append(o, Ls(I(0), c02Ret(b, encs[i]), I(src.pos)))
 			if rel {
 				d.Release()
 				d = thrift.NewReaderSkipDecoder(src)
 			}
 		}
-		if ok {
-			b, err := d.SkipN(len(follow))
-			if err == nil && string(b) == string(follow) {
-				fRSD = 1
-			}
+		b, err := d.SkipN(len(follow))
+		if err == nil && string(b) == string(follow) {
+			return o, 1
 		}
-		d.Release()
-	}
+		return o, 0
+	})
 	return Ls(xencs, oBS, oBR, I(fBR), oSD, I(fSD), oBSD, I(fBSD), oRSD, I(fRSD))
+}
+
+// A skipper that does not return within the deadline is reported as (-98) (a hang is a
+// failure of the property); that skipper is not run again in this process, the goroutine
+// stuck inside it cannot be stopped.
+var c02Hung [5]bool
+
+func c02Guard(i int, f func() (VL, int)) (VL, int) {
+	if c02Hung[i] {
+		return VL{Ls(I(-98))}, 0
+	}
+	type res struct {
+		o  VL
+		fl int
+		pv interface{}
+	}
+	ch := make(chan res, 1)
+	go func() {
+		var r res
+		defer func() {
+			if pv := recover(); pv != nil {
+				r.pv = pv
+			}
+			ch <- r
+		}()
+		r.o, r.fl = f()
+	}()
+	select {
+	case r := <-ch:
+		if r.pv != nil {
+			panic(r.pv)
+		}
+		return r.o, r.fl
+	case <-time.After(20 * time.Second):
+		c02Hung[i] = true
+		return VL{Ls(I(-98))}, 0
+	}
 }
 
 // ---------- generator ----------
